@@ -163,6 +163,9 @@ inductive Out
   | task (t : TaskId) (o : List Out)                 -- a suspended lookup of task t returned
   | all (items : List (String × Val))                -- get_resources
   | stateIs (s : CState) (closedFlag : Bool)
+  | arg (param : String) (v : Option Val)            -- @inject: value bound to an injected parameter
+  | called                                           -- @inject: the wrapped function was called
+  | warnNoInject                                     -- @inject: nothing to inject (warning, function returned as is)
   deriving Repr
 
 /-! ### names -/
@@ -248,6 +251,7 @@ def ctxAddFactory (cid : CtxId) (x : Ctx) (a : FacArgs) : Ctx × List Out :=
   else if a.types.isEmpty then (x, [.valueError])
   else if a.noneInTypes then (x, [.typeError])
   else if a.types.any (fun t => acontains ⟨t, a.name⟩ x.fac) then (x, [.conflict])
+  else if x.fac.any (fun kf => kf.2.fid = a.fid) then (x, [.badOp])   -- harness contract: factory ids are unique
   else
     let f : Factory := ⟨a.fid, a.types, a.name, a.desc, a.isAsync, a.gated, a.failFirst⟩
     let e : REvent := ⟨a.types, a.name, a.desc, true⟩
@@ -434,6 +438,63 @@ decreasing_by
     stackSize_reverse, Cb.size_mk]
   omega
 
+/-! ### @inject -/
+
+/-- An injected parameter after annotation resolution: `param: T = resource(name)`
+(`optional` for `Optional[T]` / `T | None`). -/
+structure Dep where
+  param : String
+  key : Key
+  optional : Bool
+  deriving Repr
+
+/-- Resolve the dependencies left to right through the lookup API that matches the
+function (async API for coroutine functions, sync API for plain ones); the first failing
+lookup ends the call (its exception propagates, the body is not run). -/
+def resolveDeps (cid : CtxId) (isAsync : Bool) (t : TaskId) : Ctx → List Dep → Ctx × List Out × Bool
+  | x, [] => (x, [], true)
+  | x, d :: ds =>
+    let (x', o) := if isAsync then ctxGet cid x t d.key d.optional
+                   else ctxGetNowait cid x d.key d.optional
+    match o with
+    | .val v :: evs =>
+      let (x'', os, ok) := resolveDeps cid isAsync t x' ds
+      (x'', .arg d.param (some v) :: evs ++ os, ok)
+    | [.none] =>
+      let (x'', os, ok) := resolveDeps cid isAsync t x' ds
+      (x'', .arg d.param Option.none :: os, ok)
+    | other => (x', other, false)
+
+inductive PKind | posOnly | normal | kwOnly
+  deriving DecidableEq, Repr
+
+inductive PDefault
+  | noDefault
+  | value                       -- an ordinary default value
+  | marker (name : String)      -- `resource(name)`
+  | uncalled                    -- `resource` without the parentheses
+  deriving DecidableEq, Repr
+
+structure Param where
+  name : String
+  kind : PKind
+  dflt : PDefault
+  annotated : Bool
+  deriving Repr
+
+/-- Decoration-time scan of the signature: `none` = `TypeError`; otherwise the names of
+the injected parameters in signature order. -/
+def decorate : List Param → Option (List String)
+  | [] => some []
+  | p :: ps =>
+    match p.dflt with
+    | .marker _ =>
+      if p.kind = .posOnly then Option.none
+      else if !p.annotated then Option.none
+      else (decorate ps).map (p.name :: ·)
+    | .uncalled => Option.none
+    | _ => decorate ps
+
 /-! ### the kernel's operations -/
 
 inductive Op
@@ -451,6 +512,8 @@ inductive Op
   | parentOf (c : CtxId)
   | spawn (t t' : TaskId)
   | stateOf (c : CtxId)
+  | inject (t : TaskId) (isAsync : Bool) (deps : List Dep) (badUnion : Bool)
+  | decorate (ps : List Param)
   deriving Repr
 
 def freshCtx (parent : Option CtxId) (p : Option Ctx) : Ctx :=
@@ -541,6 +604,23 @@ def step (w : World) : Op → World × List Out
     match w.ctx? c with
     | Option.none => (w, [.badOp])
     | some x => (w, [.stateIs x.state (closedFlag x.state)])
+  | .inject t isAsync deps badUnion =>
+    if badUnion then (w, [.typeError])            -- raised when the annotations are resolved
+    else match w.curOf t with
+      | Option.none => (w, [.noCurrent])
+      | some c =>
+        match w.ctx? c with
+        | Option.none => (w, [.badOp])
+        | some x =>
+          let (x', os, ok) := resolveDeps c isAsync t x deps
+          -- on failure the function is not called: the bound values are unobservable
+          (w.setCtx c x', if ok then os ++ [.called]
+                          else os.filter (fun o => match o with | .arg _ _ => false | _ => true))
+  | .decorate ps =>
+    match decorate ps with
+    | Option.none => (w, [.typeError])
+    | some [] => (w, [.warnNoInject])
+    | some _ => (w, [.ok])
 
 /-- Run a list of operations, collecting the outputs of each. -/
 def run : World → List Op → World × List (List Out)
